@@ -23,6 +23,7 @@ type sub struct {
 	kind string // what is observed (signature component)
 	what string // human description
 	want string
+	tag  string // monitor counter "init:<tag>" when the observation holds: the clause of the statement it exercises
 }
 
 // item is one evaluation against the real interpreter.
@@ -143,6 +144,23 @@ func stateSubs(universe []string, state map[string]string, ctx string) []sub {
 	return subs
 }
 
+// kinded gives every sub the kind k.
+func kinded(subs []sub, k string) []sub {
+	for i := range subs {
+		subs[i].kind = k
+	}
+	return subs
+}
+
+// copyState copies a slot state.
+func copyState(st map[string]string) map[string]string {
+	out := make(map[string]string, len(st))
+	for k, v := range st {
+		out[k] = v
+	}
+	return out
+}
+
 // argsets enumerates the subsets of the initargs valid for a class, each as a
 // call-order list: about half of the subsets are passed in ascending and half
 // in descending order of the initarg names, so that "leftmost wins" and "the
@@ -204,7 +222,7 @@ func oldItems(m0 *model, c *Case) (defs []string, judged, watched []item) {
 		if x == r {
 			same = "nil"
 		}
-		subs := []sub{{"old-instance", what + " class name", "@c" + strconv.Itoa(x)}, {"old-instance", what + " (eq (class-of i) (find-class 'c" + strconv.Itoa(x) + "))", same}}
+		subs := []sub{{"old-instance", what + " class name", "@c" + strconv.Itoa(x), ""}, {"old-instance", what + " (eq (class-of i) (find-class 'c" + strconv.Itoa(x) + "))", same, ""}}
 		for _, sb := range stateSubs(c.Universe, state, what) {
 			sb.kind = "old-instance"
 			subs = append(subs, sb)
@@ -220,9 +238,16 @@ func oldItems(m0 *model, c *Case) (defs []string, judged, watched []item) {
 }
 
 // buildItems lists everything observed once all classes exist.
-func buildItems(m *model, c *Case, final bool) []item {
+// phase 0 = before any redefinition, 1 = after the first, 2 = after the
+// second one; prev is the model of the phase before (nil in phase 0).
+func buildItems(m, prev *model, c *Case, phase int) []item {
 	var items []item
-	prev := newModel(c, c.Classes)
+	after := 0 < phase
+	if prev == nil {
+		prev = m
+	}
+	pool := initargPool(c)
+	anyK0 := hasK0(c)
 	n := len(m.classes)
 	methOn := map[int]bool{}
 	for _, k := range c.Meth {
@@ -237,13 +262,83 @@ func buildItems(m *model, c *Case, final bool) []item {
 		// instance initialisation for every subset of the initargs
 		base, baseState, baseFeats := baseOf(m, c, x)
 		for _, as := range sets {
-			state, feats := m.instance(x, as, c.Universe, all)
+			state, feats, from := m.instanceX(x, as, c.Universe, all)
 			ctx := fmt.Sprintf("c%d made with %v:", x, as)
+			subs := stateSubs(c.Universe, state, ctx)
+			for k, nme := range c.Universe {
+				subs[k].tag = from[nme]
+			}
 			items = append(items, item{kind: "init", class: x, feats: feats,
 				src:  "(let ((i " + makeSrc(c, x, as, all) + ")) " + stateSrc(c.Universe) + ")",
-				subs: stateSubs(c.Universe, state, ctx)})
+				subs: subs})
 		}
 		mk := makeSrc(c, x, base, all)
+		// the same initarg supplied twice: the leftmost value is used (ANSI 7.1.4)
+		if c.Twice && 0 < len(all) {
+			a := all[(x+phase)%len(all)]
+			state, feats := m.instance(x, []string{a}, c.Universe, all)
+			twice := strings.TrimSuffix(makeSrc(c, x, []string{a}, all), ")") + " :" + a + " 2222)"
+			items = append(items, item{kind: "init-twice", class: x, feats: append(append([]string{}, feats...), featTwice),
+				src:  "(let ((i " + twice + ")) " + stateSrc(c.Universe) + ")",
+				subs: kinded(stateSubs(c.Universe, state, fmt.Sprintf("c%d made with :%s given twice:", x, a)), "init-twice")})
+		}
+		// an initarg that no slot of the class names is rejected; first choice
+		// are initargs that were valid before a redefinition took them away
+		{
+			valid := map[string]bool{}
+			for _, a := range all {
+				valid[a] = true
+			}
+			if _, _, ex, _, ias := m.sharedSlotX(x); ex {
+				for _, a := range ias {
+					valid[a] = true
+				}
+			}
+			was := map[string]bool{}
+			if after {
+				for _, a := range prev.initargs(x) {
+					was[a] = true
+				}
+				if _, _, ex, _, ias := prev.sharedSlotX(x); ex {
+					for _, a := range ias {
+						was[a] = true
+					}
+				}
+			}
+			var cand []string
+			for _, a := range pool {
+				if !valid[a] && was[a] {
+					cand = append(cand, a)
+				}
+			}
+			for _, a := range pool {
+				if !valid[a] && !was[a] {
+					cand = append(cand, a)
+				}
+			}
+			cand = append(cand, "nope")
+			for ci, a := range cand {
+				if 2 <= ci {
+					break
+				}
+				kind := "invalid-initarg"
+				if was[a] {
+					kind = "stale-initarg" // valid until the redefinition
+				}
+				items = append(items, item{kind: kind, class: x, wantErr: true, feats: baseFeats,
+					src:  strings.TrimSuffix(mk, ")") + " :" + a + " 4444)",
+					subs: []sub{{kind: kind, what: fmt.Sprintf("c%d made with :%s, which no slot of c%d names", x, a, x)}}})
+			}
+		}
+		// the class designated by the class object instead of its name
+		if c.Cond == "" {
+			mko := strings.Replace(mk, fmt.Sprintf("'@c%d", x), fmt.Sprintf("(find-class '@c%d)", x), 1)
+			subs := []sub{{kind: "via-class-object", what: fmt.Sprintf("(class-precedence (find-class 'c%d))", x), want: m.precNames(x)}}
+			subs = append(subs, kinded(stateSubs(c.Universe, baseState, fmt.Sprintf("(make-instance (find-class 'c%d) ..):", x)), "via-class-object")...)
+			items = append(items, item{kind: "via-class-object", class: x, feats: baseFeats,
+				src:  fmt.Sprintf("(let ((i %s)) (append (list (class-precedence (find-class '@c%d))) %s))", mko, x, stateSrc(c.Universe)),
+				subs: subs})
+		}
 		// typep / class-of / subtypep against every class of the DAG
 		{
 			var sb strings.Builder
@@ -255,13 +350,21 @@ func buildItems(m *model, c *Case, final bool) []item {
 			}
 			top := m.base
 			sb.WriteString(" (typep i '" + top + ") (class-name (class-of i))")
-			subs = append(subs, sub{"typep", fmt.Sprintf("(typep <c%d> '%s)", x, top), "t"},
-				sub{"class-of", fmt.Sprintf("(class-name (class-of <c%d>))", x), "@c" + strconv.Itoa(x)})
+			subs = append(subs, sub{"typep", fmt.Sprintf("(typep <c%d> '%s)", x, top), "t", ""},
+				sub{"class-of", fmt.Sprintf("(class-name (class-of <c%d>))", x), "@c" + strconv.Itoa(x), ""})
 			fmt.Fprintf(&sb, " (eq (class-of i) (find-class '@c%d))", x)
-			subs = append(subs, sub{"class-of", fmt.Sprintf("(eq (class-of <c%d>) (find-class 'c%d))", x, x), "t"})
+			subs = append(subs, sub{"class-of", fmt.Sprintf("(eq (class-of <c%d>) (find-class 'c%d))", x, x), "t", ""})
 			for y := 0; y < n; y++ {
 				fmt.Fprintf(&sb, " (values (subtypep '@c%d '@c%d))", x, y)
 				subs = append(subs, sub{kind: "subtypep", what: fmt.Sprintf("(subtypep 'c%d 'c%d)", x, y), want: tf(m.inherits(x, y))})
+			}
+			// the implicit base class is on every precedence list
+			fmt.Fprintf(&sb, " (values (subtypep '@c%d '%s))", x, top)
+			subs = append(subs, sub{kind: "subtypep-base", what: fmt.Sprintf("(subtypep 'c%d '%s)", x, top), want: "t"})
+			if anyK0 {
+				st, _ := m.k0State(x)
+				sb.WriteString(" (slot-exists-p i 'k0)")
+				subs = append(subs, sub{kind: "class-slot-exists", what: fmt.Sprintf("(slot-exists-p <c%d> 'k0)", x), want: tf(st != "")})
 			}
 			sb.WriteString("))")
 			items = append(items, item{kind: "type", class: x, src: sb.String(), subs: subs, feats: baseFeats})
@@ -278,12 +381,12 @@ func buildItems(m *model, c *Case, final bool) []item {
 			want = "mtop"
 		}
 		gens := []string{"g"}
-		if final && c.Redef != nil {
+		if after {
 			gens = append(gens, "h") // h is first called after the redefinition
 		}
 		for _, g := range gens {
 			kind := "dispatch"
-			if g == "g" && final && c.Redef != nil && c.Redef.Skew < 0 {
+			if (g == "g" && after && c.Redef.Skew < 0) || phase == 2 {
 				kind = "dispatch-again" // same generic already called on this class before the redefinition
 			}
 			if want == "" {
@@ -406,20 +509,23 @@ func buildItems(m *model, c *Case, final bool) []item {
 			items = append(items, item{kind: "type-check", class: x, wantErr: true, errIsA: "type-error", feats: feats, src: sb.String(),
 				subs: []sub{{kind: "type-check", what: fmt.Sprintf("c%d made with a string for slot %s of :type %s", x, es.name, es.typ)}}})
 		}
-		// the class-allocated slot k0
-		if owner, hasForm, exists := m.sharedSlot(x); exists {
+		// the slot k0: class-allocated, or local below/above a class-allocated definition
+		shared := func(kind, what, src string, feats []string, want ...string) {
+			subs := make([]sub, len(want))
+			for k, w := range want {
+				subs[k] = sub{kind: kind, what: what, want: w}
+			}
+			items = append(items, item{kind: kind, class: x, feats: append(append([]string{}, baseFeats...), feats...), src: src, subs: subs})
+		}
+		v1, v2 := strconv.Itoa(5100+x), strconv.Itoa(5200+x)
+		if owner, hasForm, exists, overLocal, ias := m.sharedSlotX(x); exists {
 			var ownFeats []string
 			if owner != x {
 				ownFeats = append(ownFeats, featSharedInherited)
 			}
-			shared := func(kind, what, src string, feats []string, want ...string) {
-				subs := make([]sub, len(want))
-				for k, w := range want {
-					subs[k] = sub{kind: kind, what: what, want: w}
-				}
-				items = append(items, item{kind: kind, class: x, feats: append(append([]string{}, baseFeats...), feats...), src: src, subs: subs})
+			if overLocal {
+				ownFeats = append(ownFeats, featSharedOverLocal)
 			}
-			v1, v2 := strconv.Itoa(5100+x), strconv.Itoa(5200+x)
 			shared("class-slot-shared", fmt.Sprintf("k0 written through one <c%d>, read through another", x),
 				fmt.Sprintf("(let ((a %s) (b %s)) (setf (slot-value a 'k0) %s) (list (slot-value b 'k0) (slot-value a 'k0)))", mk, mk, v1), ownFeats, v1, v1)
 			resetFeats := ownFeats
@@ -428,8 +534,15 @@ func buildItems(m *model, c *Case, final bool) []item {
 			}
 			shared("class-slot-kept", fmt.Sprintf("k0 of <c%d> after another instance is made", x),
 				fmt.Sprintf("(let ((a %s)) (setf (slot-value a 'k0) %s) %s (list (slot-value a 'k0)))", mk, v2, mk), resetFeats, v2)
+			shared("class-slot-makunbound", fmt.Sprintf("k0 made unbound through one <c%d>, slot-boundp through another", x),
+				fmt.Sprintf("(let ((a %s) (b %s)) (setf (slot-value a 'k0) %s) (slot-makunbound a 'k0) (list (slot-boundp b 'k0) (slot-boundp a 'k0)))", mk, mk, v1), ownFeats, "nil", "nil")
+			if 0 < len(ias) {
+				// an initarg of the shared slot sets it for every instance
+				shared("class-slot-initarg", fmt.Sprintf("k0 of an earlier <c%d> after another is made with :%s 7777", x, ias[0]),
+					fmt.Sprintf("(let ((a %s) (b %s)) (list (slot-value a 'k0) (slot-value b 'k0)))", mk, strings.TrimSuffix(mk, ")")+" :"+ias[0]+" 7777)"), ownFeats, "7777", "7777")
+			}
 			for y := 0; y < n; y++ {
-				oy, _, ey := m.sharedSlot(y)
+				oy, _, ey, overY, _ := m.sharedSlotX(y)
 				if y == x || !ey {
 					continue
 				}
@@ -437,6 +550,9 @@ func buildItems(m *model, c *Case, final bool) []item {
 				feats := append([]string{}, yFeats0...)
 				if owner != x || oy != y {
 					feats = append(feats, featSharedInherited)
+				}
+				if overLocal || overY {
+					feats = append(feats, featSharedOverLocal)
 				}
 				mky := makeSrc(c, y, nil, m.initargs(y))
 				if oy == owner {
@@ -447,6 +563,29 @@ func buildItems(m *model, c *Case, final bool) []item {
 						fmt.Sprintf("(let ((a %s) (b %s)) (setf (slot-value b 'k0) %s) (setf (slot-value a 'k0) %s) (list (slot-value b 'k0) (slot-value a 'k0)))", mk, mky, v2, v1), feats, v2, v1)
 				}
 			}
+		} else if st, under := m.k0State(x); st == "local" && anyShared(c) {
+			// the most specific definition of k0 is an ordinary one: every
+			// instance has its own k0, whatever less specific classes say
+			var feats []string
+			if under {
+				feats = append(feats, "local-slot-over-class-slot")
+			}
+			shared("class-slot-local", fmt.Sprintf("k0, a local slot of c%d, written through two <c%d>", x, x),
+				fmt.Sprintf("(let ((a %s) (b %s)) (setf (slot-value a 'k0) %s) (setf (slot-value b 'k0) %s) (list (slot-value a 'k0) (slot-value b 'k0)))", mk, mk, v1, v2), feats, v1, v2)
+			for y := 0; y < n; y++ {
+				_, _, ey, overY, _ := m.sharedSlotX(y)
+				if y == x || !ey {
+					continue
+				}
+				_, yFeats := m.instance(y, nil, c.Universe, m.initargs(y))
+				yFeats = append(append([]string{}, yFeats...), feats...)
+				if overY {
+					yFeats = append(yFeats, featSharedOverLocal)
+				}
+				mky := makeSrc(c, y, nil, m.initargs(y))
+				shared("class-slot-local", fmt.Sprintf("k0 written through <c%d> (local slot), read through <c%d> (class slot)", x, y),
+					fmt.Sprintf("(let ((a %s) (b %s)) (setf (slot-value b 'k0) %s) (setf (slot-value a 'k0) %s) (list (slot-value b 'k0) (slot-value a 'k0)))", mk, mky, v2, v1), yFeats, v2, v1)
+			}
 		}
 		// change-class (standard classes only)
 		if c.Cond == "" {
@@ -456,13 +595,57 @@ func buildItems(m *model, c *Case, final bool) []item {
 				var sb strings.Builder
 				fmt.Fprintf(&sb, "(let ((i %s)) (change-class i '@c%d) (append (list (class-name (class-of i)) (typep i '@c%d) (typep i '@c%d)) %s))", mk, y, y, x, stateSrc(c.Universe))
 				what := fmt.Sprintf("<c%d> after (change-class i 'c%d):", x, y)
-				subs := []sub{{"change-class", what + " class name", "@c" + strconv.Itoa(y)}, {"change-class", what + " typep new class", "t"},
-					{"change-class", what + " typep old class", tf(m.inherits(y, x))}}
+				subs := []sub{{"change-class", what + " class name", "@c" + strconv.Itoa(y), ""}, {"change-class", what + " typep new class", "t", ""},
+					{"change-class", what + " typep old class", tf(m.inherits(y, x)), ""}}
 				for _, sb2 := range stateSubs(c.Universe, state, what) {
 					sb2.kind = "change-class"
 					subs = append(subs, sb2)
 				}
 				items = append(items, item{kind: "change-class", class: x, feats: append(append([]string{}, baseFeats...), feats...), src: sb.String(), subs: subs})
+				if d != 1 {
+					continue
+				}
+				// operations on the result: the changed instance is dispatched on
+				// and read like an instance of its new class, then changed back
+				wantY := ""
+				for _, k := range m.prec(y) {
+					if methOn[k] {
+						wantY = "m" + strconv.Itoa(k)
+						break
+					}
+				}
+				if wantY == "" && c.MethTop {
+					wantY = "mtop"
+				}
+				if wantY == "" {
+					items = append(items, item{kind: "changed-dispatch", class: x, wantErr: true, feats: append(append([]string{}, baseFeats...), feats...),
+						src:  fmt.Sprintf("(let ((i %s)) (change-class i '@c%d) (@g i))", mk, y),
+						subs: []sub{{kind: "changed-dispatch", what: fmt.Sprintf("(g <c%d changed to c%d>) with no applicable method", x, y)}}})
+				}
+				back, feats2 := m.changed(y, x, state, c.Universe)
+				var cb strings.Builder
+				var csubs []sub
+				fmt.Fprintf(&cb, "(let ((i %s)) (change-class i '@c%d) (let ((mid (list", mk, y)
+				if wantY != "" {
+					cb.WriteString(" (@g i)")
+					csubs = append(csubs, sub{kind: "changed-dispatch", what: fmt.Sprintf("(g <c%d changed to c%d>)", x, y), want: wantY})
+				}
+				for k := 0; k < n; k++ {
+					if !m.inherits(y, k) {
+						continue
+					}
+					for _, a := range m.accessorsOf(k) {
+						if a.kind == "w" || state[a.slot] == unbound || state[a.slot] == missing || state[a.slot] == "" {
+							continue
+						}
+						fmt.Fprintf(&cb, " (%s i)", a.name)
+						csubs = append(csubs, sub{kind: "changed-reader", what: fmt.Sprintf("reader of c%d.%s on <c%d changed to c%d>", a.class, a.slot, x, y), want: state[a.slot]})
+					}
+				}
+				fmt.Fprintf(&cb, "))) (change-class i '@c%d) (append mid (list (class-name (class-of i))) %s)))", x, stateSrc(c.Universe))
+				csubs = append(csubs, sub{kind: "change-class-back", what: fmt.Sprintf("<c%d> changed to c%d and back: class name", x, y), want: "@c" + strconv.Itoa(x)})
+				csubs = append(csubs, kinded(stateSubs(c.Universe, back, fmt.Sprintf("<c%d> changed to c%d and back:", x, y)), "change-class-back")...)
+				items = append(items, item{kind: "change-class-back", class: x, feats: append(append(append([]string{}, baseFeats...), feats...), feats2...), src: cb.String(), subs: csubs})
 			}
 		}
 		// two-argument probe generic: specificity is decided by the precedence
@@ -505,7 +688,7 @@ func buildItems(m *model, c *Case, final bool) []item {
 			}
 		}
 		// accessors of classes that are not on the precedence list are not applicable
-		if final && c.Redef != nil {
+		if after {
 			sort.SliceStable(foreign, func(a, b int) bool {
 				return prev.inherits(x, foreign[a].class) && !prev.inherits(x, foreign[b].class)
 			})
@@ -520,7 +703,7 @@ func buildItems(m *model, c *Case, final bool) []item {
 				call = fmt.Sprintf("(%s %s 1)", a.name, mk)
 			}
 			kind := "foreign-accessor"
-			if final && c.Redef != nil && prev.gen[a.class] == m.gen[a.class] && prev.inherits(x, a.class) {
+			if after && prev.gen[a.class] == m.gen[a.class] && prev.inherits(x, a.class) {
 				kind = "foreign-accessor-again" // was applicable, and called, before the redefinition
 			}
 			items = append(items, item{kind: kind, class: x, wantErr: true, feats: accFeats, src: call,
@@ -535,6 +718,93 @@ func tf(b bool) string {
 		return "t"
 	}
 	return "nil"
+}
+
+// allDefs lists every defclass form of the case.
+func allDefs(c *Case) []Class {
+	defs := append([]Class{}, c.Classes...)
+	if c.Redef != nil {
+		defs = append(defs, c.Redef.Def)
+	}
+	if c.Redef2 != nil {
+		defs = append(defs, c.Redef2.Def)
+	}
+	return defs
+}
+
+// initargPool lists, sorted, every initarg named by any defclass form of the case.
+func initargPool(c *Case) []string {
+	set := map[string]bool{}
+	for _, d := range allDefs(c) {
+		for _, sd := range d.Slots {
+			for _, ia := range sd.Initargs {
+				set[ia] = true
+			}
+		}
+	}
+	out := make([]string, 0, len(set))
+	for ia := range set {
+		out = append(out, ia)
+	}
+	sort.Strings(out)
+	return out
+}
+
+// hasK0: some form defines the slot k0; anyShared: some form allocates it in the class.
+func hasK0(c *Case) bool {
+	for _, d := range allDefs(c) {
+		for _, sd := range d.Slots {
+			if sd.Name == sharedName {
+				return true
+			}
+		}
+	}
+	return false
+}
+
+func anyShared(c *Case) bool {
+	for _, d := range allDefs(c) {
+		for _, sd := range d.Slots {
+			if sd.Shared {
+				return true
+			}
+		}
+	}
+	return false
+}
+
+// failingForms lists evaluations that must signal an error and leave no
+// trace: an attempt to redefine each class with a malformed form (another
+// list of superclasses and other slots, but :initform twice in the last slot,
+// or a built-in class as superclass) and a make-instance with an initarg no
+// class names. They are evaluated before the observations of a phase.
+func failingForms(m *model, c *Case, phase int) []item {
+	var items []item
+	n := len(m.classes)
+	def := "defclass"
+	if c.Cond != "" {
+		def = "define-condition"
+	}
+	for k := 0; k < n; k++ {
+		sup := ""
+		if len(m.classes[k].Supers) == 0 && 1 < n && !m.inherits((k+1)%n, k) {
+			sup = fmt.Sprintf("@c%d", (k+1)%n)
+		}
+		var src string
+		switch (k + phase) % 3 {
+		case 0:
+			src = fmt.Sprintf("(%s @c%d (%s) ((s0 :initform 1 :initarg :if%d :reader @fr%d-%d) (s1 :initform 771 :initform 772)))", def, k, sup, k, k, phase)
+		case 1:
+			src = fmt.Sprintf("(%s @c%d (%s fixnum) ((s1 :initform 773 :initarg :ig%d)))", def, k, sup, k)
+		default:
+			src = fmt.Sprintf("(%s @c%d (%s) ((s2 :initform 774) (s0 :no-such-option 1)))", def, k, sup)
+		}
+		items = append(items, item{kind: "failed-defclass", class: k, wantErr: true, src: src,
+			subs: []sub{{kind: "failed-defclass", what: fmt.Sprintf("malformed redefinition of c%d", k)}}})
+		items = append(items, item{kind: "failed-make-instance", class: k, wantErr: true, src: strings.TrimSuffix(makeSrc(c, k, nil, nil), ")") + " :nope 1)",
+			subs: []sub{{kind: "failed-make-instance", what: fmt.Sprintf("c%d made with :nope", k)}}})
+	}
+	return items
 }
 
 var uid int
@@ -575,6 +845,23 @@ func (rn *run) fail(sig, perm string, format string, a ...any) {
 // (pinned by slip's own tests) where ANSI lets the leftmost one win.
 const openFeat = "two-initargs-one-slot"
 
+// Two more constructs with an open finding:
+const (
+	// the same initarg supplied twice: slip uses the rightmost value
+	featTwice = "same-initarg-twice"
+	// a class-allocated slot whose less specific definition is a local slot is not shared
+	featSharedOverLocal = "class-slot-over-local-slot"
+)
+
+func hasFeat(feats []string, f string) bool {
+	for _, g := range feats {
+		if g == f {
+			return true
+		}
+	}
+	return false
+}
+
 func hasOpen(feats []string) bool {
 	for _, f := range feats {
 		if f == openFeat {
@@ -591,6 +878,15 @@ func hasOpen(feats []string) bool {
 func sigOf(obs, fail, when string, feats []string) string {
 	if fail == "duplicate-initarg" && hasOpen(feats) {
 		return "construct=" + openFeat
+	}
+	if obs == "init-twice" && fail == "wrong" && hasFeat(feats, featTwice) {
+		return "construct=" + featTwice
+	}
+	if strings.HasPrefix(obs, "class-slot-") && fail == "wrong" && hasFeat(feats, featSharedOverLocal) {
+		return "construct=" + featSharedOverLocal
+	}
+	if obs == "subtypep-base" && fail == "wrong" {
+		return "construct=subtypep-implicit-base"
 	}
 	return fmt.Sprintf("obs=%s fail=%s when=%s", obs, fail, when)
 }
@@ -662,6 +958,9 @@ func (rn *run) observe(scope *slip.Scope, prefix, perm string, items []item, whe
 			got := strings.ReplaceAll(sl.Show(list[k]), prefix, "@")
 			if got == sb.want {
 				rn.x.Cover("held:" + sb.kind)
+				if sb.tag != "" {
+					rn.x.Cover("init:" + sb.tag)
+				}
 				continue
 			}
 			kind := sb.kind
@@ -715,10 +1014,27 @@ func exec(x *fw.Ctx, c Case) {
 		m1 = newModel(&c, cls)
 		m1.gen[c.Redef.Class] = 1
 	}
-	items0 := buildItems(m0, &c, c.Redef == nil)
-	var items1 []item
+	m2 := m1
+	if c.Redef2 != nil && c.Redef != nil && c.Redef.Skew < 0 {
+		cls := append([]Class{}, m1.classes...)
+		cls[c.Redef2.Class] = c.Redef2.Def
+		m2 = newModel(&c, cls)
+		copy(m2.gen, m1.gen)
+		m2.gen[c.Redef2.Class]++
+	}
+	items0 := buildItems(m0, nil, &c, 0)
+	var items1, items2 []item
 	if c.Redef != nil {
-		items1 = buildItems(m1, &c, true)
+		items1 = buildItems(m1, m0, &c, 1)
+	}
+	if m2 != m1 {
+		items2 = buildItems(m2, m1, &c, 2)
+	}
+	var fail0, fail1, fail2 []item
+	if c.Failed {
+		fail0 = failingForms(m0, &c, 0)
+		fail1 = failingForms(m1, &c, 1)
+		fail2 = failingForms(m2, &c, 2)
 	}
 	var oldDefs []string
 	var oldWatched []item
@@ -733,7 +1049,7 @@ func exec(x *fw.Ctx, c Case) {
 		x.Fail("harness-defun", "%s", err)
 		return
 	}
-	for _, its := range [][]item{items0, items1, oldWatched} {
+	for _, its := range [][]item{items0, items1, items2, oldWatched} {
 		for k := range its {
 			its[k].src = strings.ReplaceAll(its[k].src, stateFn, stName)
 		}
@@ -766,9 +1082,34 @@ func exec(x *fw.Ctx, c Case) {
 			x.Cover("shape:redefinition-mid-sequence")
 		}
 	}
-	for _, it := range append(append([]item{}, items0...), items1...) {
+	if c.Redef2 != nil && m2 != m1 {
+		switch {
+		case c.Redef2.Class != c.Redef.Class:
+			x.Cover("shape:second-redefinition-of-another-class")
+		case fmt.Sprint(c.Redef2.Def) == fmt.Sprint(c.Classes[c.Redef.Class]):
+			x.Cover("shape:second-redefinition-back-to-the-first-definition")
+		default:
+			x.Cover("shape:second-redefinition-of-the-same-class")
+		}
+	}
+	if c.Failed {
+		x.Cover("shape:failing-forms-before-every-observation-phase")
+	}
+	for k := 0; k < n; k++ {
+		if _, _, ex, over, ias := m1.sharedSlotX(k); ex {
+			if over {
+				x.Cover("shape:class-slot-over-local-slot")
+			}
+			if 0 < len(ias) {
+				x.Cover("shape:class-slot-with-initarg")
+			}
+		} else if st, under := m1.k0State(k); st == "local" && under {
+			x.Cover("shape:local-slot-over-class-slot")
+		}
+	}
+	for _, it := range append(append(append([]item{}, items0...), items1...), items2...) {
 		for _, f := range it.feats {
-			if f == openFeat {
+			if f == openFeat || f == featTwice || f == featSharedOverLocal {
 				x.Cover("dirty:" + f)
 			} else {
 				x.Cover("exercised:" + f)
@@ -917,10 +1258,33 @@ func exec(x *fw.Ctx, c Case) {
 			}
 			return "ordered"
 		}
+		// failing forms: each must signal an error; the observations after
+		// them are judged as if they had never been evaluated
+		failing := func(items []item) bool {
+			for _, it := range items {
+				_, err := rn.eval(scope, prefix, it.src)
+				switch {
+				case err == nil:
+					rn.fail(sigOf(it.kind, "no-error", "define", nil), ps, "%s: must signal an error; evaluated %s", it.subs[0].what, strings.ReplaceAll(it.src, "@", ""))
+					return false
+				case err.Internal:
+					rn.fail(sigOf(it.kind, "internal-fault", "define", nil), ps, "%s: %s; evaluated %s", it.subs[0].what, err, strings.ReplaceAll(it.src, "@", ""))
+				default:
+					x.Cover("held:" + it.kind + "-rejected")
+				}
+			}
+			return true
+		}
 		switch {
 		case c.Redef == nil:
+			if !failing(fail0) {
+				continue
+			}
 			rn.observe(scope, prefix, ps, items0, whenDef, "p0", nil)
 		case c.Redef.Skew < 0:
+			if !failing(fail0) {
+				continue
+			}
 			rn.observe(scope, prefix, ps, items0, whenDef, "p0", nil)
 			for _, d := range oldDefs {
 				if _, err := rn.eval(scope, prefix, d); err != nil {
@@ -951,17 +1315,42 @@ func exec(x *fw.Ctx, c Case) {
 					}
 				}
 			}
+			if !failing(fail1) {
+				continue
+			}
 			rn.observe(scope, prefix, ps, items1, func(k int) string {
 				if m0.inherits(k, c.Redef.Class) || m1.inherits(k, c.Redef.Class) {
 					return "redef"
 				}
 				return "redef-unrelated"
 			}, "p1", nil)
+			if m2 == m1 {
+				break
+			}
+			// the second redefinition: define / use / redefine / use / redefine / use
+			if !define(c.Redef2.Class, c.Redef2.Def, m2.gen[c.Redef2.Class]) {
+				continue
+			}
+			if !failing(fail2) {
+				continue
+			}
+			rn.observe(scope, prefix, ps, items2, func(k int) string {
+				if m1.inherits(k, c.Redef2.Class) || m2.inherits(k, c.Redef2.Class) {
+					return "redef2"
+				}
+				if m0.inherits(k, c.Redef.Class) || m1.inherits(k, c.Redef.Class) {
+					return "redef2-after-redef"
+				}
+				return "redef-unrelated"
+			}, "p2", nil)
 		default:
 			w := "redef-mid"
 			if redefForward {
 				w = "redef-mid-forward"
 				x.Cover("orders:redefinition-names-undefined-super")
+			}
+			if !failing(fail1) {
+				continue
 			}
 			rn.observe(scope, prefix, ps, items1, func(k int) string {
 				if m0.inherits(k, c.Redef.Class) || m1.inherits(k, c.Redef.Class) {
@@ -973,14 +1362,14 @@ func exec(x *fw.Ctx, c Case) {
 	}
 	x.CoverN("evaluations", rn.evals)
 	x.CoverN("definition-orders", len(perms))
-	x.CoverN("items-per-order", len(items0)+len(items1))
+	x.CoverN("items-per-order", len(items0)+len(items1)+len(items2))
 	sort.Strings(rn.order)
 	for _, sig := range rn.order {
 		f := rn.fails[sig]
 		x.Fail(sig, "%s (in %d of %d definition orders)", f.msg, f.perms, rn.nperms)
 	}
-	x.Observe(map[string]any{"orders": len(perms), "evaluations": rn.evals, "items_per_order": len(items0) + len(items1),
-		"sample_precedence": strings.ReplaceAll(m1.precNames(0), "@", ""), "violations": len(rn.order)})
+	x.Observe(map[string]any{"orders": len(perms), "evaluations": rn.evals, "items_per_order": len(items0) + len(items1) + len(items2),
+		"sample_precedence": strings.ReplaceAll(m2.precNames(0), "@", ""), "violations": len(rn.order)})
 }
 
 // shape gives the depth of the DAG and the largest number of classes on one
